@@ -7,6 +7,8 @@ JConcurrent(e) ==
      R("C18", "no_data_race_reported", r.parsed, ~r.race, cls),
      R("C18", "concurrent_results_equal_sequential", r.parsed, Len(r.mismatches) = 0 /\ r.panics = 0, cls),
      R("C18", "receiver_not_mutated", r.parsed, r.value_unchanged, cls),
+     \* field level, unexported fields included: the queried value still equals a value freshly parsed from the same bytes
+     R("C18", "receiver_fields_not_mutated", r.parsed /\ "deep_control" \in DOMAIN r /\ r.deep_control, r.deep_unchanged, cls),
      R("C18", "package_tables_not_mutated", r.parsed, r.tables_unchanged, cls),
      R("C18", "serialiser_slices_have_no_spare_capacity", r.parsed /\ Len(r.caps) = 6, r.caps_tight, cls) >>
 =============================================================================
